@@ -239,10 +239,41 @@ func (f *frame) callOrdinal(name string) int {
 }
 
 func (f *frame) callStatic(callee *ssa.Function, bindings []Val, args []Val, st *State, pos string) []Val {
-	c := f.c
-	eng := c.eng
 	sk := shortKey(callee)
 	ord := f.callOrdinal(sk)
+	res := f.callStatic1(callee, bindings, args, st, pos, sk, ord)
+	f.afterCallLets(sk, ord, args, res, st)
+	return res
+}
+
+// afterCallLets fixes the local ghosts declared with "let name = expr after call sk#ord".
+func (f *frame) afterCallLets(sk string, ord int, args, res []Val, st *State) {
+	if f.spec == nil || !f.top {
+		return
+	}
+	for _, l := range f.spec.Lets {
+		if l.Callee != sk || l.Ordinal != ord {
+			continue
+		}
+		for h, body := range f.loopBody {
+			if body[f.curBlock] || h == f.curBlock {
+				panic(specErr("let %s: call %s#%d is inside a loop", l.Name, sk, ord))
+			}
+		}
+		env := f.hereEnv(st)
+		for i := range args {
+			env.vars[fmt.Sprintf("arg%d", i)] = args[i]
+		}
+		for i := range res {
+			env.vars[fmt.Sprintf("result%d", i)] = res[i]
+		}
+		f.c.ghosts[l.Name] = env.eval(l.Expr)
+	}
+}
+
+func (f *frame) callStatic1(callee *ssa.Function, bindings []Val, args []Val, st *State, pos string, sk string, ord int) []Val {
+	c := f.c
+	eng := c.eng
 	var pnames []string
 	for _, p := range callee.Params {
 		pnames = append(pnames, p.Name())
@@ -752,10 +783,14 @@ func (f *frame) invoke(common *ssa.CallCommon, recv Val, args []Val, st *State, 
 	}
 	if fs != nil {
 		c.assumed["interface-contract:"+key] = true
-		return f.applyContract(fs, nil, sig, args, st, pos, key)
+		res := f.applyContract(fs, nil, sig, args, st, pos, key)
+		f.afterCallLets(key, iord, args, res, st)
+		return res
 	}
 	c.assumed["assumed-pure:"+key] = true
-	return f.havocResults(sig, key, st)
+	res := f.havocResults(sig, key, st)
+	f.afterCallLets(key, iord, args, res, st)
+	return res
 }
 
 // callUnknownFunc: call through a function value whose body is not statically known:
